@@ -189,7 +189,7 @@ def judge(role, pings, o):
             bad.append(("data-after-close-frame", "data frame(s) %r sent after our close frame" % [(a[0], a[2][:10]) for a in after]))
     # who closed first?  (a ping timeout makes Tornado close on its own: a close frame emitted during a timer event)
     gated = o.get("gated", False)
-    ping_close = next((i for i, t in enumerate(o["trace"]) if t[0] == "timer" and 8 in t[2]), None)
+    ping_close = next((i for i, t in enumerate(o["trace"]) if t[0] in ("timer", "tick") and 8 in t[2]), None)
     local_steps = [i for i, e in enumerate(evs) if e.startswith("local_close")]
     cands = local_steps + ([ping_close] if ping_close is not None else [])
     first_local = min(cands) if cands else None
@@ -301,9 +301,9 @@ class C16(Check):
 
     def run_partition(self, part, tier, st):
         role, pings, gated, first, preamble = part
-        depth = 3 if tier == "quick" else 4
+        depth = 3 if tier == "quick" else 5
         if gated or pings:
-            depth = min(depth, 3)
+            depth = 3 if tier == "quick" else 4
 
         def harness(ch):
             return run(ch, role, pings, gated, depth, preamble)
